@@ -223,6 +223,10 @@ pub struct Transaction {
 	/// The sequence number when this transaction started.
 	pub(crate) start_seq_num: u64,
 
+	/// The store's restore epoch when this transaction started (a restore from a
+	/// checkpoint in the meantime invalidates the transaction).
+	begin_epoch: u64,
+
 	/// `savepoints` indicates the current number of stacked savepoints; zero
 	/// means none.
 	savepoints: u32,
@@ -264,6 +268,7 @@ impl Transaction {
 		} = opts;
 
 		// Get the current visible sequence number as our start point.
+		let begin_epoch = core.commit_pipeline.restore_epoch();
 		let start_seq_num = core.seq_num();
 		#[cfg(surrealkv_verif)]
 		crate::verif::yieldp::yield_point("txn.loaded", start_seq_num, 0);
@@ -291,6 +296,7 @@ impl Transaction {
 			durability,
 			closed: false,
 			start_seq_num,
+			begin_epoch,
 			savepoints: 0,
 			write_seqno: 0,
 			txn_guard,
@@ -796,7 +802,7 @@ impl Transaction {
 		// seq alloc + oracle.publish + WAL atomically under `write_mutex`,
 		// then runs memtable apply OUTSIDE the lock.
 		let should_sync = self.durability == Durability::Immediate;
-		self.core.commit(batch, should_sync, self.start_seq_num).await?;
+		self.core.commit_from_epoch(batch, should_sync, self.start_seq_num, self.begin_epoch).await?;
 
 		// Mark the transaction as closed and release the watermark slot.
 		self.closed = true;
